@@ -702,6 +702,7 @@ func c08Run(c *c08Case, next func(e *aEnv) []aOp) (info c08Info, err error) {
 		return info, fmt.Errorf("%s\n%s", msg, e.history())
 	}
 	hist := e.history()
+	live := pSnapshot(e.inst.slock)
 	base := vScratchDir("c08base")
 	cerr := vCopyDir(hc.DataDir, base)
 	e.close()
@@ -709,6 +710,25 @@ func c08Run(c *c08Case, next func(e *aEnv) []aOp) (info c08Info, err error) {
 		return info, cerr
 	}
 	defer os.RemoveAll(base)
+	// anchor of the metamorphic comparisons below: the uncut log recovers the persisted live state (C07's oracle)
+	{
+		d0 := vScratchDir("c08full")
+		if cerr := vCopyDir(base, d0); cerr != nil {
+			return info, cerr
+		}
+		at := time.Now().Unix()
+		full, finst, rerr := c08RecoverDir(hc, d0)
+		if rerr == nil {
+			finst.vClose(false, false)
+		}
+		os.RemoveAll(d0)
+		if rerr != nil {
+			return info, fmt.Errorf("start on the uncut log failed: %v\n--- history ---\n%s", rerr, hist)
+		}
+		if err := pCompareRecovered(live, full, at, "uncut log"); err != nil {
+			return info, fmt.Errorf("%v\nlive:\n%srecovered:\n%s%s--- history ---\n%s", err, live, full, pDumpDir(base), hist)
+		}
+	}
 	file, _ := c08Newest(base)
 	if file == "" {
 		return info, nil
@@ -914,7 +934,7 @@ func c08After(c *c08Case, hc *aCase, inst *vInst, dir string, recovered *pState,
 func c08Gen(t *rapid.T, thorough bool) (*c08Case, func(e *aEnv) []aOp) {
 	c := &c08Case{}
 	h := pGenCase(t, "C08")
-	h.EpochOff = 15
+	h.EpochOff = rapid.SampledFrom([]int{15, 15, 45, 130}).Draw(t, "c08EpochOff")
 	c.H = *h
 	n := rapid.IntRange(2, 16).Draw(t, "nOps")
 	fresh := 0
